@@ -7,6 +7,12 @@ CHECKS = {
  "C01": dict(engine="tlc+replay+tracecheck", technique="TLA+ wire specification (OscWire.tla) model-checked by TLC; TLC-enumerated messages replayed into the real constructors/accessors; recorded observations trace-validated by TLC",
     text="OscWire.tla transcribes the OSC 1.0 wire rules; TLC checks Size=Len(Encode), 4-alignment and Decode(Encode(m))=m on every message of the generator (all type strings up to length 3 over the 17 symbols, boundary values, all address lengths mod 4) and emits each as a vector; the three real constructors and all accessors run on every vector and on seeded random messages (<=40 tags, <=64-byte addresses) in an ASan build, and TLC judges every logged observation against the specification",
     note="bounded: exhaustive to depth 3, random beyond; x86-64 SysV va_list for run-time varargs; signalling-NaN floats not passed through C varargs", ref="DESIGN.md 4 C01"),
+ "C02": dict(engine="tlc+replay+tracecheck", technique="TLA+ wire specification; TLC-enumerated messages and bundles replayed into the real constructors at every capacity 0..needed+8; per-capacity observations trace-validated by TLC",
+    text="for every message/bundle TLC enumerates (and seeded random ones) the real rtosc_amessage / rtosc_vmessage / rtosc_avmessage / rtosc_bundle are called with a destination of every capacity from 0 to needed+8 (exact-size heap block, 8 guard bytes, ASan red zones); OscWireTrace judges each capacity: fits => exact size and the specification's image, does not fit => 0 and an all-zero buffer, guard untouched, no ASan report; NULL-buffer size query equals Size()",
+    note="bounded input space as C01/C08; the internal fixed buffers of ThreadLink::write and RtData::reply are exercised through the same rtosc_vmessage", ref="DESIGN.md 4 C02"),
+ "C08": dict(engine="tlc+replay+tracecheck", technique="TLA+ bundle layout specification model-checked by TLC (decomposition inverts composition); enumerated and random bundles replayed into rtosc_bundle and the element API; observations trace-validated by TLC",
+    text="OscWire.tla defines EncBundle and the element walk from the layout rules; TLC checks on every generated bundle (0..3 elements from a message pool and nested bundles) that decomposition inverts composition, sizes, time tag, total length, and that no message is taken for a bundle; the real rtosc_bundle / bundle_p / elements / fetch / size / timetag / message_length run on each and on seeded random bundles (0..8 elements, nesting 0..4, random time tags) and TLC judges the observations",
+    note="a bundle used as an element is followed by one zero word (the element API takes no length); variadic rtosc_bundle driven with 0..8 elements", ref="DESIGN.md 4 C08"),
 }
 NOT_APPLICABLE = []
 def main():
